@@ -144,7 +144,7 @@ var progsPlain = []prog{
 	{Src: ".[]", KeyLookup: true},
 	{Src: "ascii_downcase"},
 	{Src: "1+."},
-	{Src: "tonumber"},
+	{Src: "tonumber", NoJq: true}, // jq 1.6 accepts surrounding white space ("12\n"), gojq does not (language)
 	{Src: "length", KeyLookup: true}, // decode value -1 has length -1 (jq: 1); value semantics, not the CLI
 	{Src: `if type=="string" then error("boom") else . end`},
 	{Src: `if type=="number" then error else . end`},
@@ -781,7 +781,7 @@ func genInputs(rt *rapid.T, c *cfg, n int) {
 				in = genJSONInput(rt, name, label, c.JqCompat && !c.R)
 				in.Kind = "text"
 			}
-		case k <= 3 && c.decodeGroup() == "probe":
+		case k <= 3 && c.decodeGroup() == "probe" && !c.JqCompat:
 			in = input{Name: name, Kind: "bad", Data: pick(rt, label+"_bad", badPool)}
 		default:
 			in = genJSONInput(rt, name, label, c.JqCompat && !c.R)
@@ -792,7 +792,7 @@ func genInputs(rt *rapid.T, c *cfg, n int) {
 
 func genCfg(rt *rapid.T) *cfg {
 	c := &cfg{}
-	c.JqCompat = rapid.IntRange(0, 9).Draw(rt, "jqcompat") < harness.N(3, 5)
+	c.JqCompat = rapid.IntRange(0, 9).Draw(rt, "jqcompat") < jqShare
 	// modes
 	mode := rapid.IntRange(0, 15).Draw(rt, "mode")
 	switch {
@@ -854,7 +854,7 @@ func genCfg(rt *rapid.T) *cfg {
 		switch {
 		case c.R:
 			st = input{Name: "<stdin>", Kind: "text", Data: pick(rt, "stdin_text", textPool)}
-		case chance(rt, "stdin_bad", 1, 4) && c.decodeGroup() == "probe":
+		case chance(rt, "stdin_bad", 1, 4) && c.decodeGroup() == "probe" && !c.JqCompat:
 			st = input{Name: "<stdin>", Kind: "bad", Data: pick(rt, "stdin_badv", badPool)}
 		default:
 			st = genJSONInput(rt, "<stdin>", "stdin", false)
@@ -942,6 +942,18 @@ func genCfg(rt *rapid.T) *cfg {
 	}
 	return c
 }
+
+// share (out of 10) of the cases drawn inside the jq 1.6 compatible spelling;
+// C17_JQ_SHARE overrides it (development: flush out jq/gojq differences)
+var jqShare = func() int {
+	if v, err := strconv.Atoi(os.Getenv("C17_JQ_SHARE")); err == nil {
+		return v
+	}
+	if os.Getenv("VERIF_TIER") == "thorough" {
+		return 5
+	}
+	return 3
+}()
 
 var rawFiles = map[string]string{"raw1.txt": "l1\nl2\n", "raw2.txt": "", "raw3": `{"a":1}`}
 
@@ -1391,9 +1403,6 @@ func jqDomain(c *cfg, argv, feats []string, m modelResult) (bool, string) {
 		return false, "error-null"
 	}
 	for _, a := range argv {
-		if a == "--" {
-			break
-		}
 		// jq 1.6 rejects a letter repeated inside one group of short flags
 		if len(a) > 2 && a[0] == '-' && a[1] != '-' {
 			for i := 1; i < len(a); i++ {
@@ -1566,6 +1575,14 @@ func TestModel(t *testing.T) {
 			c.Label("prog:nocompile")
 			c.Check(res.Exit == 3, "compile-exit", "program %q does not compile: exit %d, want 3 (argv %q, stderr %q)", cf.Prog.Src, res.Exit, argv, res.Stderr)
 			c.Check(len(res.Stdout) == 0, "compile-stdout", "program %q does not compile but stdout has %s", cf.Prog.Src, show(res.Stdout))
+			if ok, _ := jqDomain(cf, argv, feats, modelResult{}); ok && jqAvailable() {
+				if jr, ran := runJq(argv, cf, files); ran {
+					harness.ExtraAdd("jq_runs", 1)
+					c.Label("jq-crosschecked")
+					c.Stepf("jq -> exit %d stdout %s stderr %s", jr.Exit, show(jr.Stdout), show([]byte(jr.Stderr)))
+					c.Check(jr.Exit == res.Exit && len(jr.Stdout) == 0, "jq-compile", "argv %q: fq exit %d, jq 1.6 exit %d stdout %s", argv, res.Exit, jr.Exit, show(jr.Stdout))
+				}
+			}
 			c.SetNonTrivial(nModes >= 2 || len(cf.Inputs) >= 2)
 			return
 		}
